@@ -360,7 +360,8 @@ structure CFunc where
 def compileFunc (ctx : Ctx) (params locals : List VT) (result : Option VT) (body : List EInstr) : Except Err CFunc := do
   let s0 : St := { labels := [⟨0, 0, result⟩], next := 1 }
   let ctx' := { ctx with localTypes := params ++ locals }
-  let (s1, out, _) ← compileSeq ctx' s0 body
+  let (s1, out, dead) ← compileSeq ctx' s0 body
+  if !dead && s1.stack ≠ result.toList then .error "function body does not leave the result type (invalid module)" else
   -- wasmCWriteFunctionReturn: only when some slot was declared; declares s<t>0
   match result with
   | some rt =>
